@@ -601,16 +601,17 @@ type waiterT struct {
 }
 
 type resultT struct {
-	Finished     bool                `json:"finished"`
-	Stall        string              `json:"stall,omitempty"` // "lock-waiters" | "no-lock-waiters"
-	Waiters      []waiterT           `json:"waiters,omitempty"`
-	Dump         string              `json:"dump,omitempty"`
-	Panics       []string            `json:"panics,omitempty"`
-	Counters     map[string]int64    `json:"counters"`
-	Spans        map[string]kindSpan `json:"spans"`
-	WallMs       int64               `json:"wall_ms"`
-	StallAfterMs int64               `json:"stall_after_ms,omitempty"` // how long the progress vector had not moved when the stall was declared
-	StalledDone  bool                `json:"stalled_done,omitempty"`   // the stalled-reader goroutine ran to its end
+	Finished        bool                `json:"finished"`
+	Stall           string              `json:"stall,omitempty"` // "lock-waiters" | "no-lock-waiters"
+	Waiters         []waiterT           `json:"waiters,omitempty"`
+	Dump            string              `json:"dump,omitempty"`
+	Panics          []string            `json:"panics,omitempty"`
+	Counters        map[string]int64    `json:"counters"`
+	Spans           map[string]kindSpan `json:"spans"`
+	WallMs          int64               `json:"wall_ms"`
+	StallAfterMs    int64               `json:"stall_after_ms,omitempty"`    // how long the progress vector had not moved when the stall was declared
+	StalledDone     bool                `json:"stalled_done,omitempty"`      // the stalled-reader goroutine ran to its end
+	StalledHandlerG int                 `json:"stalled_handler_g,omitempty"` // goroutine id of the stalled connection's handler
 }
 
 const earlyStallWindow = 3 * time.Second
@@ -634,27 +635,36 @@ type clientState struct {
 	dead    bool
 	pending []*refmqtt.Packet // acknowledgements held back (ack policy "settle")
 	done    chan struct{}     // closed when EstablishConnection returned
+	gid     atomic.Int64      // goroutine id of the handler
 }
 
 type runner struct {
-	sc       scenarioT
-	srv      *mqtt.Server
-	lst      *stressListener
-	start    time.Time
-	steps    []atomic.Int64 // per client goroutine
-	finished []atomic.Bool
-	connMu   sync.Mutex
-	conns    []*memConn
-	handlers atomic.Int64 // EstablishConnection calls that returned
-	opened   atomic.Int64
-	hkCalls  atomic.Int64
-	inlCalls atomic.Int64
-	closeRet atomic.Bool
-	panicMu  sync.Mutex
-	panics   []string
+	sc          scenarioT
+	srv         *mqtt.Server
+	lst         *stressListener
+	start       time.Time
+	steps       []atomic.Int64 // per client goroutine
+	finished    []atomic.Bool
+	connMu      sync.Mutex
+	conns       []*memConn
+	handlers    atomic.Int64 // EstablishConnection calls that returned
+	opened      atomic.Int64
+	hkCalls     atomic.Int64
+	inlCalls    atomic.Int64
+	closeRet    atomic.Bool
+	stalledConn atomic.Pointer[clientState]
+	panicMu     sync.Mutex
+	panics      []string
 	// per client goroutine statistics (owned by the goroutine, read after it finished)
 	stats []map[string]int64
 	spans []map[string]kindSpan
+}
+
+func (r *runner) stalledG() int {
+	if cs := r.stalledConn.Load(); cs != nil {
+		return int(cs.gid.Load())
+	}
+	return -1
 }
 
 func (r *runner) since() int64 { return int64(time.Since(r.start)) }
@@ -692,6 +702,7 @@ func (r *runner) openLimited(limit int) *clientState {
 		defer r.handlers.Add(1)
 		defer close(cs.done)
 		defer r.guard("connection handler")
+		cs.gid.Store(int64(selfID()))
 		_ = r.srv.EstablishConnection("l1", c)
 	}()
 	return cs
@@ -753,6 +764,8 @@ func (cs *clientState) pump(st map[string]int64, flush bool) (got int) {
 		}
 		var reply *refmqtt.Packet
 		switch typ {
+		case refmqtt.SUBACK:
+			st["suback"]++
 		case refmqtt.CONNACK:
 			st["connack"]++
 			if len(body) >= 2 && body[1] != 0 {
@@ -988,6 +1001,7 @@ func (r *runner) stalledMain(p stalledT, st map[string]int64) {
 		return
 	}
 	s := r.openLimited(p.Limit)
+	r.stalledConn.Store(s)
 	s.ver, s.ack = p.Ver, "none"
 	con := &refmqtt.Packet{Type: refmqtt.CONNECT, ProtocolName: "MQTT", Level: p.Ver, CleanStart: p.Clean, ClientID: id, KeepAlive: 0}
 	if p.Ver == 5 && p.Variant == "disconnect-expiry" {
@@ -1000,10 +1014,7 @@ func (r *runner) stalledMain(p stalledT, st map[string]int64) {
 		return
 	}
 	s.sendPk(&refmqtt.Packet{Type: refmqtt.SUBSCRIBE, PacketID: 1, Filters: []refmqtt.Filter{{Filter: "t/#", QoS: p.Qos}}})
-	// SUBACK is type 9: the lenient pump does not count it, so give the broker a moment and go on
-	for t0 := time.Now(); time.Since(t0) < 20*time.Millisecond; time.Sleep(time.Millisecond) {
-		s.pump(st, false)
-	}
+	waitFor(s, "suback", st["suback"]+1, 2*time.Second)
 	// from here on the stalled client does not read any more; the helper publishes until a broker write is blocked
 	h := r.openLimited(0)
 	h.ver, h.ack = 4, "all"
@@ -1052,10 +1063,26 @@ func (r *runner) stalledMain(p stalledT, st map[string]int64) {
 		}
 	case "server-close":
 	}
-	// give the broker a moment to act on the trigger, then leave: the stalled connection stays open and undrained
-	time.Sleep(2 * time.Millisecond)
+	// The stalled connection stays open and undrained. Except when Server.Close is the trigger, the broker must now
+	// close it on its own - while it keeps serving, not at shutdown: Server.Close is not called before the handler of
+	// the stalled connection has returned. If it never does, the run stands still and the stall oracle looks at the locks.
 	h.pump(st, true)
 	h.c.closePeer(false)
+	if p.Variant != "server-close" {
+		for waited := 0; ; waited++ {
+			select {
+			case <-s.done:
+				st["stalled:handler-returned-after-trigger"]++
+			default:
+				if taker != nil {
+					taker.pump(st, false)
+				}
+				time.Sleep(time.Millisecond)
+				continue
+			}
+			break
+		}
+	}
 	if taker != nil {
 		taker.pump(st, true)
 		taker.c.closePeer(false)
@@ -1208,10 +1235,11 @@ func runScenario(in childIn) *resultT {
 	}
 	var stalledDone atomic.Bool
 	stalledStats := map[string]int64{}
+	var wgStalled sync.WaitGroup
 	if sc.Stalled != nil {
-		wgClients.Add(1)
+		wgStalled.Add(1)
 		go func() {
-			defer wgClients.Done()
+			defer wgStalled.Done()
 			defer stalledDone.Store(true)
 			defer r.guard("stalled-reader goroutine")
 			begin.Wait()
@@ -1240,7 +1268,9 @@ func runScenario(in childIn) *resultT {
 	allDone := make(chan struct{})
 	go func() {
 		wgClients.Wait()
-		stopAux.Store(true)
+		stopAux.Store(true) // housekeeping and inline calls end with the ordinary clients, so that a stalled-reader
+		// goroutine that waits for its handler in vain leaves the progress vector standing still
+		wgStalled.Wait()
 		wgAux.Wait()
 		// every handler must have returned (Close waits for them)
 		for r.handlers.Load() < r.opened.Load() {
@@ -1286,12 +1316,13 @@ loop:
 			switch {
 			case p != last:
 				last, lastChange, earlyDone = p, time.Now(), false
-			case idle >= earlyStallWindow && !earlyDone && len(early) > 0 && idle < window:
+			case idle >= earlyStallWindow && !earlyDone && (len(early) > 0 || sc.Stalled != nil) && idle < window:
 				// a stall whose dump has the shape of a LISTED finding is reported after the short window: it only
 				// reproduces something known (a nested read lock with a waiting writer cannot resolve itself)
 				earlyDone = true
 				if ws, d, still := stalled(last); still && len(ws) > 0 {
-					if sg, _ := nameStall(sc, ws); early[sg] {
+					// (the same early exit when only the stalled connection's own goroutines wait: that is never judged)
+					if sg, _ := nameStall(sc, ws, r.stalledG()); early[sg] || sg == ownOnly {
 						res.Waiters, res.Dump, res.Stall, res.StallAfterMs = ws, d, "lock-waiters", idle.Milliseconds()
 						break loop
 					}
@@ -1313,6 +1344,7 @@ loop:
 		}
 	}
 	res.WallMs = time.Since(r.start).Milliseconds()
+	res.StalledHandlerG = r.stalledG()
 	r.panicMu.Lock()
 	res.Panics = append(res.Panics, r.panics...)
 	r.panicMu.Unlock()
